@@ -428,7 +428,13 @@ pub fn run_spec(spec: &Spec, envs: &Envs, scratch_tag: &str, stop_at_first: bool
     }
     if out.status == "ok" {
         if let Some(i) = out.differing {
-            let any_abnormal = out.obs[0].abnormal.is_some() || out.obs[i].abnormal.is_some();
+            // Endings that are the machine's, not gram's: a signal (stack exhaustion, memory cap),
+            // or main.rs reporting that the OS refused it a thread.
+            let starved = |o: &LaunchObs| o.all_text().contains("Error spawning thread");
+            let any_abnormal = out.obs[0].abnormal.is_some()
+                || out.obs[i].abnormal.is_some()
+                || starved(&out.obs[0])
+                || starved(&out.obs[i]);
             if any_abnormal {
                 // One of the two launches was ended by a signal (stack exhaustion, memory cap):
                 // resource endings are not gram output, so nothing is concluded either way.
